@@ -1432,6 +1432,26 @@ def _decide_table(names, atoms, leaf_of):
         _DECIDING[0] = False
 
 
+_LEN_PRESERVING = ("Iterator::map", "Iterator::enumerate", "Iterator::collect", "Iterator::rev", "Iterator::cloned", "Iterator::copied")
+
+
+def _renorm_call(n):
+    """a call whose arguments were just substituted: it.map(f).map(g) is it.map(g . f); the length of a mapped / enumerated / collected
+    sequence is the length of the sequence"""
+    name, args = n[1], n[2]
+    if name == "Iterator::map" and len(args) == 2 and args[1][0] == "closure" and args[1][2] == 1 and args[0][0] == "call" and args[0][1] == "Iterator::map" \
+            and len(args[0][2]) == 2 and args[0][2][1][0] == "closure" and args[0][2][1][2] == 1:
+        f, g = args[0][2][1], args[1]
+        return ("call", "Iterator::map", [args[0][2][0], ("closure", g[1], 1, _shadow_safe(g[3], g[1], lambda x: _apply(f, ("cparam", g[1], 0)) if x == ("cparam", g[1], 0) else None))])
+    if name in ("slice::len", "slice::is_empty") and len(args) == 1:
+        base = args[0]
+        while base[0] == "call" and base[1] in _LEN_PRESERVING and base[2] and not (base[1] == "Iterator::collect" and base[2][0][0] == "try"):
+            base = base[2][0]
+        if base is not args[0]:
+            return ("call", name, [base])
+    return n
+
+
 def rewrite(t, fn):
     """rebuild a term bottom-up; fn(node) -> replacement or None"""
     k = t[0]
@@ -1455,6 +1475,8 @@ def rewrite(t, fn):
         n = (k, t[1], [rewrite(a, fn) for a in t[2]])
         if t[1] == "then" and len(n[2]) == 2 and n[2][0] != t[2][0]:
             n = _mk_then(n[2][0], n[2][1])          # the order of plain flags is decided on what is substituted
+        elif n[2] != t[2]:
+            n = _renorm_call(n)                     # adaptors meeting adaptors only after an argument was put in place
     elif k == "closure":
         n = (k, t[1], t[2], rewrite(t[3], fn))
     elif k == "struct":
@@ -3137,7 +3159,8 @@ class Norm:
                 return recv
             if name in ("From::from", "Into::into") and not args and _is_int_widening(e, e["recv"]):
                 return ("cast", peel_ty(e.get("ty", "")), recv)
-            name = {"Vec::is_empty": "slice::is_empty", "Vec::len": "slice::len", "Vec::first": "slice::first", "Vec::last": "slice::last"}.get(name, name)
+            name = {"Vec::is_empty": "slice::is_empty", "Vec::len": "slice::len", "Vec::first": "slice::first", "Vec::last": "slice::last",
+                    "ExactSizeIterator::len": "slice::len", "ExactSizeIterator::is_empty": "slice::is_empty"}.get(name, name)
             if not args and name in ("slice::len", "slice::is_empty"):
                 # length-preserving adaptors: xs.iter().map(f).collect::<Vec<_>>() has as many elements as xs
                 base = recv
@@ -3204,6 +3227,9 @@ class Norm:
                 return _mk_if(recv[2][0], recv[2][1], ("tpl", "quote", "", []))
             if name in TRANSPARENT and not args:
                 return recv
+            if name == "Iterator::map" and len(args) == 1 and args[0][0] == "closure" and args[0][2] == 1 and recv[0] == "call" and recv[1] == "Iterator::map" \
+                    and len(recv[2]) == 2 and recv[2][1][0] == "closure" and recv[2][1][2] == 1 and recv[2][1][1] == args[0][1]:
+                return ("call", "Iterator::map", [recv[2][0], _compose(args[0], recv[2][1])])        # it.map(f).map(g)  ==  it.map(|x| g(f(x)))
             if name == "Iterator::map" and len(args) == 1 and args[0][0] == "closure" and args[0][2] == 1 and recv[0] == "call" and recv[1] == "Iterator::filter_map" \
                     and len(recv[2]) == 2 and recv[2][1][0] == "closure" and recv[2][1][2] == 1:
                 # it.filter_map(f).map(g)  ==  it.filter_map(|x| f(x).map(g))
